@@ -45,7 +45,16 @@ func (t Tree) String() string {
 
 // Write out the entire AST to a strings.Builder.
 func (t Tree) Write(s *strings.Builder) {
+	afterComment := false // Whether the last thing written was a comment
 	for _, n := range t.Nodes {
+		if task, ok := n.(Task); ok && afterComment && task.Docstring.String() == "" {
+			// A comment directly above a task would be read back as its docstring
+			// so keep the two apart with an empty comment
+			s.WriteString("#\n")
+		}
+		if text := n.String(); text != "" {
+			_, afterComment = n.(Comment)
+		}
 		n.Write(s)
 	}
 }
